@@ -142,6 +142,8 @@ func (s *Set) getSiblingTemplate(templatePath, siblingPath string, cacheAfterPar
 		siblingDir := path.Dir(siblingPath)
 		templatePath = path.Join(siblingDir, templatePath)
 	}
+	// absolute names may still contain ".", ".." or empty segments
+	templatePath = path.Clean(templatePath)
 	return s.getTemplate(templatePath, cacheAfterParsing)
 }
 
